@@ -895,6 +895,272 @@ def judge_real_file(exe, xz, filebytes, data, chunk, seed, workdir, collect=None
     return None
 
 
+# ---------------------------------------------------------------------------------------------
+# `xz --list` in all its formats versus the library index and the real layout, on sets of files that combine
+# multi-Block Streams with non-zero Stream Padding (streams x blocks-per-stream x padding in {0,4,8,12})
+# ---------------------------------------------------------------------------------------------
+
+def make_list_file(rng, xz):
+    """Returns (file bytes, layout) with layout = [(blocks, stream_size, uncompressed_size, check_id, padding), ...]."""
+    import subprocess
+    out, layout = b"", []
+    nstreams = rng.choice([1, 2, 2, 3, 4])
+    for k in range(nstreams):
+        nblocks = rng.choice([1, 1, 2, 3, 4, 5])
+        bs = rng.choice([64, 500, 2000])
+        n = (nblocks - 1) * bs + rng.randrange(1, bs + 1)
+        if rng.random() < 0.08:
+            n, nblocks = 0, 0                          # a Stream without Blocks
+        piece = bytes(rng.getrandbits(8) if rng.random() < 0.5 else 65 for _ in range(n))
+        chk = rng.choice([0, 1, 4, 10])
+        cmd = [xz, "-c", "-T1", "-0", "-C", {0: "none", 1: "crc32", 4: "crc64", 10: "sha256"}[chk], "--block-size=%d" % bs]
+        p = subprocess.run(cmd, input=piece, stdout=subprocess.PIPE, stderr=subprocess.PIPE, timeout=600)
+        if p.returncode != 0:
+            raise RuntimeError("xz failed: " + p.stderr.decode()[:300])
+        pad = 4 * rng.choice([0, 1, 2, 3])
+        out += p.stdout + b"\0" * pad
+        layout.append((nblocks, len(p.stdout), n, chk, pad))
+    return out, layout
+
+
+def xz_ratio(c, u):
+    if u == 0:
+        return "---"
+    r = float(c) / float(u)
+    return "---" if r > 9.999 else "%.3f" % r
+
+
+def check_list_names(mask, sep):
+    names = {0: "None", 1: "CRC32", 4: "CRC64", 10: "SHA-256"}
+    if mask == 0:
+        mask = 1
+    return sep.join(names.get(i, "Unknown-%d" % i) for i in range(16) if mask & (1 << i))
+
+
+def human_bytes(text):
+    """Exact byte count of xz's human size text: '20.0 KiB (20516 B)' or '380 B'."""
+    import re
+    m = re.search(r"\(([0-9][0-9,.'   ]*) B\)", text) or re.match(r"^\s*([0-9][0-9,.'   ]*) B\s*$", text)
+    if not m:
+        return None
+    return int(re.sub(r"[^0-9]", "", m.group(1)))
+
+
+def judge_list_set(exe, xz, files, workdir):
+    """files = [(bytes, layout)]. Every figure of `xz -l` (robot -l/-lv/-lvv, human -l/-lv/-lvv; file, stream, block, totals
+    lines) must equal what lzma_file_info_decoder + the iterator give, which must equal the real layout."""
+    import subprocess
+    lib = []        # per file: dict of figures from the library
+    for fb, layout in files:
+        ops = ["reset", "finfo 0 %d %d 0 %s" % (1 << 40, len(fb) + 1, R.hexs(fb)), "sum 0", "iter 0 1", "iter 0 2"]
+        rc, out, err = run_hist(exe, ops, timeout=900)
+        if rc == 124:
+            return "TIMEOUT"
+        if rc != 0 or len(out) != len(ops):
+            return "implementation aborted: " + err[-500:]
+        if not out[1].startswith("1 0 S"):
+            return "lzma_file_info_decoder failed on a valid file: " + out[1][:100]
+        ssum = out[2].split()
+        streams, blocks = parse_items(out[3]), parse_items(out[4])
+        # library vs the real layout
+        if len(streams) != len(layout):
+            return "the index has %d Streams, the file %d" % (len(streams), len(layout))
+        off, uoff = 0, 0
+        for (st, fl, _), (nb, csz, usz, chk, pad) in zip(streams, layout):
+            want = (nb, off, uoff, csz, usz, pad, chk)
+            have = (st[1], st[2], st[3], st[4], st[5], st[6], int(fl.split("/")[2]))
+            if want != have:
+                return "Stream %d of the index (blocks, offsets, sizes, padding, check) = %s, the real file has %s" % (st[0], have, want)
+            off += csz + pad
+            uoff += usz
+        if int(ssum[6]) != len(fb):
+            return "lzma_index_file_size %s differs from the real size %d" % (ssum[6], len(fb))
+        lib.append({"streams": streams, "blocks": blocks, "nstreams": int(ssum[1]), "nblocks": int(ssum[2]), "csize": int(ssum[6]),
+                    "usize": int(ssum[7]), "checks": int(ssum[8]), "padding": sum(l[4] for l in layout)})
+    paths = []
+    for k, (fb, _) in enumerate(files):
+        pth = os.path.join(workdir, "l%d.xz" % k)
+        with open(pth, "wb") as f:
+            f.write(fb)
+        paths.append(pth)
+
+    def run(args):
+        e = dict(os.environ)
+        e["LC_ALL"] = "C"
+        p = subprocess.run([xz] + args + paths, stdout=subprocess.PIPE, stderr=subprocess.PIPE, timeout=600, env=e)
+        return p.returncode, p.stdout.decode("utf-8", "replace"), p.stderr.decode("utf-8", "replace")
+
+    tot = {"nstreams": sum(x["nstreams"] for x in lib), "nblocks": sum(x["nblocks"] for x in lib), "csize": sum(x["csize"] for x in lib),
+           "usize": sum(x["usize"] for x in lib), "padding": sum(x["padding"] for x in lib), "checks": 0}
+    for x in lib:
+        tot["checks"] |= x["checks"]
+    try:
+        # ---- robot formats
+        for lvl in ("-l", "-lv", "-lvv"):
+            rc, so, se = run(["--robot", lvl])
+            if rc != 0:
+                return "xz --robot %s failed: %s" % (lvl, se[:300])
+            recs = [ln.split("\t") for ln in so.split("\n") if ln]
+            fi = -1
+            per = []
+            for t in recs:
+                if t[0] == "name":
+                    fi += 1
+                    per.append({"file": None, "stream": [], "block": []})
+                elif t[0] in ("file",):
+                    per[fi]["file"] = t
+                elif t[0] in ("stream", "block"):
+                    per[fi][t[0]].append(t)
+            if len(per) != len(lib):
+                return "xz --robot %s lists %d files instead of %d" % (lvl, len(per), len(lib))
+            for k, (pr, x) in enumerate(zip(per, lib)):
+                want = ["file", str(x["nstreams"]), str(x["nblocks"]), str(x["csize"]), str(x["usize"]), xz_ratio(x["csize"], x["usize"]),
+                        check_list_names(x["checks"], ","), str(x["padding"])]
+                if pr["file"] != want:
+                    return "xz --robot %s, file %d: file line %s, index/real layout say %s" % (lvl, k, pr["file"], want)
+                if lvl != "-l":
+                    if len(pr["stream"]) != len(x["streams"]):
+                        return "xz --robot %s, file %d: %d stream lines for %d Streams" % (lvl, k, len(pr["stream"]), len(x["streams"]))
+                    for t, (st, fl, _) in zip(pr["stream"], x["streams"]):
+                        want = ["stream", str(st[0]), str(st[1]), str(st[2]), str(st[3]), str(st[4]), str(st[5]), xz_ratio(st[4], st[5]),
+                                check_list_names(1 << int(fl.split("/")[2]), ","), str(st[6])]
+                        if t != want:
+                            return "xz --robot %s, file %d: stream line %s, index says %s" % (lvl, k, t, want)
+                    if sum(int(t[9]) for t in pr["stream"]) != int(pr["file"][7]):
+                        return "xz --robot %s, file %d: Stream Padding of the file line is not the sum of the stream lines" % (lvl, k)
+                    if len(pr["block"]) != len(x["blocks"]):
+                        return "xz --robot %s, file %d: %d block lines for %d Blocks" % (lvl, k, len(pr["block"]), len(x["blocks"]))
+                    for t, (st, fl, b) in zip(pr["block"], x["blocks"]):
+                        want = ["block", str(st[0]), str(b[3]), str(b[0]), str(b[1]), str(b[2]), str(b[8]), str(b[6]), xz_ratio(b[8], b[6]),
+                                check_list_names(1 << int(fl.split("/")[2]), ",")]
+                        if t[:10] != want:
+                            return "xz --robot %s, file %d: block line %s, index says %s" % (lvl, k, t[:10], want)
+            tl = [t for t in recs if t[0] == "totals"]
+            want = ["totals", str(tot["nstreams"]), str(tot["nblocks"]), str(tot["csize"]), str(tot["usize"]), xz_ratio(tot["csize"], tot["usize"]),
+                    check_list_names(tot["checks"], ","), str(tot["padding"]), str(len(lib))]
+            if len(tl) != 1 or tl[0][:9] != want:
+                return "xz --robot %s: totals line %s, sums over the files say %s" % (lvl, tl[0][:9] if tl else None, want)
+        # ---- human formats
+        for lvl in ("-lv", "-lvv"):
+            rc, so, se = run([lvl])
+            if rc != 0:
+                return "xz %s failed: %s" % (lvl, se[:300])
+            sections = [sec for sec in so.split("\n\n") if sec.strip()]
+            if len(sections) != len(lib) + (1 if len(lib) > 1 else 0):
+                return "xz %s: %d sections for %d files" % (lvl, len(sections), len(lib))
+            for k, sec in enumerate(sections):
+                lines = sec.strip("\n").split("\n")
+                x = lib[k] if k < len(lib) else tot
+                kv = {}
+                mode, srows, brows = None, [], []
+                for ln in lines[1:]:
+                    if ln.startswith("  Streams:") and ln.strip() == "Streams:":
+                        mode = "s"
+                        continue
+                    if ln.strip() == "Blocks:":
+                        mode = "b"
+                        continue
+                    if ln.startswith("    "):
+                        f = ln.split()
+                        if f and f[0].isdigit():
+                            (srows if mode == "s" else brows).append(f)
+                        continue
+                    mode = None
+                    if ":" in ln:
+                        a, _, b = ln.partition(":")
+                        kv[a.strip()] = b.strip()
+                want = {"Streams": str(x["nstreams"]), "Blocks": str(x["nblocks"]), "Ratio": xz_ratio(x["csize"], x["usize"]),
+                        "Check": check_list_names(x["checks"], ", ")}
+                for key, w in want.items():
+                    if kv.get(key) != w:
+                        return "xz %s, section %d: '%s: %s', index says %s" % (lvl, k, key, kv.get(key), w)
+                for key, w in (("Compressed size", x["csize"]), ("Uncompressed size", x["usize"]), ("Stream Padding", x["padding"])):
+                    if key not in kv or human_bytes(kv[key]) != w:
+                        return "xz %s, section %d: '%s: %s', index/real layout say %d B" % (lvl, k, key, kv.get(key), w)
+                if k == len(lib):
+                    if kv.get("Number of files") != str(len(lib)):
+                        return "xz %s: totals 'Number of files: %s'" % (lvl, kv.get("Number of files"))
+                    continue
+                if len(srows) != len(x["streams"]):
+                    return "xz %s, file %d: %d rows in the Streams table for %d Streams" % (lvl, k, len(srows), len(x["streams"]))
+                for f, (st, fl, _) in zip(srows, x["streams"]):
+                    w = [str(st[0]), str(st[1]), str(st[2]), str(st[3]), str(st[4]), str(st[5]), xz_ratio(st[4], st[5]),
+                         check_list_names(1 << int(fl.split("/")[2]), ","), str(st[6])]
+                    if f != w:
+                        return "xz %s, file %d: Streams table row %s, index says %s" % (lvl, k, f, w)
+                if len(brows) != len(x["blocks"]):
+                    return "xz %s, file %d: %d rows in the Blocks table for %d Blocks" % (lvl, k, len(brows), len(x["blocks"]))
+                for f, (st, fl, b) in zip(brows, x["blocks"]):
+                    w = [str(st[0]), str(b[3]), str(b[1]), str(b[2]), str(b[8]), str(b[6]), xz_ratio(b[8], b[6]),
+                         check_list_names(1 << int(fl.split("/")[2]), ",")]
+                    if f[:8] != w:
+                        return "xz %s, file %d: Blocks table row %s, index says %s" % (lvl, k, f[:8], w)
+        # ---- basic format: Streams and Blocks columns, totals row
+        rc, so, se = run(["-l"])
+        if rc != 0:
+            return "xz -l failed: " + se[:300]
+        rows = [ln.split() for ln in so.split("\n") if ln.strip() and ln.split()[0].isdigit()]
+        wantrows = [[str(x["nstreams"]), str(x["nblocks"])] for x in lib]
+        if len(lib) > 1:
+            wantrows.append([str(tot["nstreams"]), str(tot["nblocks"])])
+        if [r[:2] for r in rows] != wantrows:
+            return "xz -l: Streams/Blocks columns %s, index says %s" % ([r[:2] for r in rows], wantrows)
+        for r, x in zip(rows, lib + [tot]):
+            if r[-2] != check_list_names(x["checks"], ",") and not (r is rows[-1] and len(lib) > 1):
+                return "xz -l: Check column %s, index says %s" % (r[-2], check_list_names(x["checks"], ","))
+    finally:
+        for pth in paths:
+            try:
+                os.unlink(pth)
+            except OSError:
+                pass
+    return None
+
+
+def list_sets_stage(ctx, exe, xz, workdir):
+    rng = ctx.rng
+    n = 10 if ctx.quick() else 60
+    sets = []
+    for _ in range(n):
+        try:
+            sets.append([make_list_file(rng, xz) for _ in range(rng.choice([1, 2, 2, 3]))])
+        except Exception as ex:
+            ctx.count("list-set:could-not-build-file")
+            ctx.log("list-set stage: " + str(ex)[:200])
+
+    def one(kc):
+        k, fs = kc
+        d = os.path.join(workdir, "list-%d-%d" % (os.getpid(), k))
+        os.makedirs(d, exist_ok=True)
+        try:
+            return judge_list_set(exe, xz, fs, d)
+        finally:
+            try:
+                os.rmdir(d)
+            except OSError:
+                pass
+
+    res = vlib.par_map(one, list(enumerate(sets)))
+    bad = 0
+    for fs, r in zip(sets, res):
+        ctx.case(("listset", tuple(tuple(l) for _, lay in fs for l in lay)), nontrivial=True, sample=None)
+        for _, lay in fs:
+            for nb, _, _, _, pad in lay:
+                ctx.count("list-set:stream blocks%s padding%s" % (">1" if nb > 1 else "<=1", ">0" if pad else "=0"))
+        if r == "TIMEOUT":
+            ctx.count("list-set:timeout-skipped")
+            continue
+        if r is not None:
+            bad += 1
+            if bad <= 2:
+                ctx.violation("xz-list", {"kind": r, "listset_hex": [fb.hex() for fb, _ in fs], "listset_layout": [lay for _, lay in fs],
+                                          "how_to_replay": "./check C13 --replay <this file>"}, True)
+    ctx.cov["correspondence"]["list_sets"] = {
+        "invocations": len(sets), "files": sum(len(fs) for fs in sets), "failing": bad,
+        "checked": "xz --robot -l/-lv/-lvv and xz -l/-lv/-lvv (file, stream, block, totals figures incl. Stream Padding) vs "
+                   "lzma_file_info_decoder + iterator vs the real layout; streams x blocks-per-stream x padding in {0,4,8,12}"}
+
+
 def model_blockat(mexe, filebytes, data, blocks, k):
     """Model side of random access on a real file: returns (number of Blocks, error text or None)."""
     ents = []
@@ -989,6 +1255,7 @@ def real_files_stage(ctx, exe):
                                             "how_to_replay": "./check C13 --replay <this file>"}, True)
     ctx.cov["correspondence"]["real_files"] = {"files": len(cases), "failing": bad,
                                                "checked": "file-info index vs data (each Block decoded alone by Python lzma) and vs xz --list --robot -vv"}
+    list_sets_stage(ctx, exe, xz, workdir)
 
 
 def build_all(ctx):
@@ -1167,6 +1434,18 @@ def replay(ctx, path):
         print("cannot build")
         return 2
     R.load_constants(vlib.module_path("XzVerif.Gen.C13"))
+    if "listset_hex" in r:
+        okr, log, bd = vlib.c_build("rel", targets=["xz"])
+        workdir = os.path.join(vlib.CACHE, "c13-scratch", "replay")
+        os.makedirs(workdir, exist_ok=True)
+        files = [(bytes.fromhex(h), [tuple(l) for l in lay]) for h, lay in zip(r["listset_hex"], r["listset_layout"])]
+        why = judge_list_set(exe, os.path.join(bd, "xz"), files, workdir)
+        if why is not None and why != "TIMEOUT":
+            print(why)
+            print("VIOLATION property=C13 replay=%s" % path)
+            return 1
+        print("replay passes")
+        return 0
     if "realfile_hex" in r:
         okr, log, bd = vlib.c_build("rel", targets=["xz"])
         workdir = os.path.join(vlib.CACHE, "c13-scratch", "replay")
